@@ -169,11 +169,40 @@ func main() {
 	for i := 0; i < n; i++ {
 		add(vaxis.HexColor(uint32(cfg.Rand.Intn(1<<24))), "random")
 	}
+	// histories: conversions are made in sequence by one process, so a result must not depend on
+	// what was converted before: exact palette entries and other colours, with repeats
+	cube := []int{0, 0x5f, 0x87, 0xaf, 0xd7, 0xff}
+	exact := func() vaxis.Color {
+		if cfg.Rand.Intn(4) == 0 {
+			v := uint8(8 + 10*cfg.Rand.Intn(24))
+			return vaxis.RGBColor(v, v, v)
+		}
+		return vaxis.RGBColor(uint8(cube[cfg.Rand.Intn(6)]), uint8(cube[cfg.Rand.Intn(6)]), uint8(cube[cfg.Rand.Intn(6)]))
+	}
+	nh := 1500
+	if cfg.Thorough() {
+		nh = 60000
+	}
+	prev := exact()
+	for i := 0; i < nh; i++ {
+		c := prev
+		switch x := cfg.Rand.Intn(10); {
+		case x < 4: // the same colour again
+		case x < 7:
+			c = exact()
+		case x < 9:
+			c = vaxis.HexColor(uint32(cfg.Rand.Intn(1 << 24)))
+		default:
+			c = vaxis.IndexColor(uint8(cfg.Rand.Intn(256)))
+		}
+		add(c, "history")
+		prev = c
+	}
 	// Color values with both tags or stray high bits (HexColor does not mask)
 	for i := 0; i < 50; i++ {
 		add(vaxis.Color(cfg.Rand.Uint32()), "rawbits")
 	}
 	capsS, gateS, widthS := capsStreams(cfg)
-	cfg.Write("C07", "width: on the same terminals (some identifying as kitty: noZWJ quirk) RenderedWidth of probe graphemes (narrow, wide, emoji with modifier, ZWJ sequence, combining, VS16, flag, empty, lone mark) against the library's gwidth under the method the reported capabilities select; caps: fake terminals answering exactly the start-up queries of a capability subset (quick: none, all, every single capability, every pair, 400 random subsets of 17; thorough: all 2^17), capabilities reported by Vaxis compared with those advertised; gate: on such terminals three frames (render, render with cursor, refresh) with direct/indexed colours, styled and coloured underlines, hyperlinks, wide and zero-width cells, every token written classified by allowed; colours: default, indexed, all triples over a set of boundary channel levels, uniformly random RGB, raw 32-bit values; non-trivial = RGB-tagged (goes through the palette search); distinct by (colour,result)",
+	cfg.Write("C07", "width: on the same terminals (some identifying as kitty: noZWJ quirk) RenderedWidth of probe graphemes (narrow, wide, emoji with modifier, ZWJ sequence, combining, VS16, flag, empty, lone mark) against the library's gwidth under the method the reported capabilities select; caps: fake terminals answering exactly the start-up queries of a capability subset (quick: none, all, every single capability, every pair, 400 random subsets of 17; thorough: all 2^17), capabilities reported by Vaxis compared with those advertised; gate: on such terminals three frames (render, render with cursor, refresh) with direct/indexed colours, styled and coloured underlines, hyperlinks, wide and zero-width cells, every token written classified by allowed; colours: default, indexed, all triples over a set of boundary channel levels, uniformly random RGB, raw 32-bit values, and histories of conversions with repeats of exact palette entries (a result must not depend on earlier conversions); non-trivial = RGB-tagged (goes through the palette search); distinct by (colour,result)",
 		[]*hx.Stream{s, capsS, gateS, widthS}, nil, nil)
 }
